@@ -82,6 +82,10 @@ def run_case(case, col=None):
         except tp.TealSyntaxError as e:
             out.append(("unparsable", "emitted TEAL does not parse: %s" % e))
             continue
+        iss = diff.unassemblable(oc.teal, cfg["version"], recipe.get("mode", "app"))
+        if iss is not None:
+            out.append(("unassemblable:%s" % iss.kind, "cfg=%s: the emitted program cannot be assembled: %s\n--- TEAL ---\n%s" % (diff.cfg_key(cfg), iss, diff.short_teal(oc.teal, 60))))
+            continue
         if col:
             col.cls("compiled:%s" % ("proto" if any(i.op == "proto" for i in prog.instrs) else "scratch-convention"))
         sigs = diff.label_sigs(recipe, prog)
